@@ -246,7 +246,70 @@ def generate(rng, tier):
         cases.append(_lac_case(rng, True))
     for _ in range(10 if quick else 60):
         cases.append(_lac_case(rng, False))
+    # rows longer than any plausible internal read block, strides that do not divide powers of two
+    for _ in range(2 if quick else 8):
+        cases.append({"kind": "long", "lens": [rng.choice([65537, 70001, 131075]), rng.randint(1, 9)][:rng.choice([1, 2])],
+                      "stride": rng.choice([3, 5, 7, 10, 1000]), "seed": rng.randrange(10 ** 6)})
+    # history: load files, rewrite one of them at the same path with another frame count, load again
+    for _ in range(3 if quick else 20):
+        L = [rng.randint(1, 6) for _ in range(rng.randint(2, 4))]
+        k = rng.randrange(len(L))
+        L2 = list(L)
+        L2[k] = rng.choice([x for x in range(1, 8) if x != L[k]])
+        if rng.random() < 0.5 and len(L) >= 2:      # keep the total unchanged: silent misplacement instead of an error
+            j = (k + 1) % len(L)
+            L2[j] = L[j] + (L[k] - L2[k])
+            if L2[j] < 1:
+                L2[j] = L[j]
+        cases.append({"kind": "lachist", "lens": L, "lens2": L2, "stride": rng.choice([1, 1, 2]), "procs": rng.choice([1, 2])})
     return cases
+
+
+def _run_long(c, d):
+    from enspara.ra import ra
+    rs = np.random.RandomState(c["seed"])
+    rows = [rs.randint(0, 1000, size=n).astype("int32") for n in c["lens"]]
+    path = os.path.join(d, "long.h5")
+    a = ra.RaggedArray(rows) if len(rows) > 1 else rows[0]
+    ra.save(path, a)
+    full = ra.load(path)
+    strided = ra.load(path, stride=c["stride"])
+    def rowsof(x):
+        return [np.asarray(r) for r in x] if len(c["lens"]) > 1 else [np.asarray(x)]
+    ok_full = all(np.array_equal(x, y) for x, y in zip(rowsof(full), rows)) and len(rowsof(full)) == len(rows)
+    ok_str = all(np.array_equal(x, y[::c["stride"]]) for x, y in zip(rowsof(strided), rows)) and len(rowsof(strided)) == len(rows)
+    return {"roundtrip": bool(ok_full), "stride_eq_slice": bool(ok_str)}
+
+
+def _run_lachist(c, d):
+    import mdtraj as md
+    from enspara.util.load import load_as_concatenated
+    src = md.load(os.path.join(DATA, "frame0.h5"))
+    def write(lens, which=None):
+        off = 0
+        for i, n in enumerate(lens):
+            if which is None or i in which:
+                src[off:off + n].save_hdf5(os.path.join(d, "t%d.h5" % i))
+            off += n
+    fns = [os.path.join(d, "t%d.h5" % i) for i in range(len(c["lens"]))]
+    kw = {} if c["stride"] == 1 else {"stride": c["stride"]}
+    out = {}
+    write(c["lens"])
+    for tag, lens in (("first", c["lens"]), ("second", c["lens2"])):
+        if tag == "second":
+            ch = [i for i, (a, b) in enumerate(zip(c["lens"], c["lens2"])) if a != b]
+            off = 100   # different frames as well, so that stale coordinates are visible
+            for i in ch:
+                src[off:off + c["lens2"][i]].save_hdf5(os.path.join(d, "t%d.h5" % i))
+                off += 10
+        try:
+            lengths, xyz = load_as_concatenated(fns, processes=c["procs"], **kw)
+            indiv = [md.load(f, **kw).xyz for f in fns]
+            out[tag] = {"lengths_ok": [int(v) for v in lengths] == [len(x) for x in indiv],
+                        "data_ok": bool(np.array_equal(xyz, np.concatenate(indiv)))}
+        except Exception as ex:
+            out[tag] = _err(ex)
+    return out
 
 
 # ----------------------------------------------------------------------------- implementation
@@ -409,6 +472,10 @@ def run_impl(c):
             return _run_ra(c, d)
         if c["kind"] == "raw":
             return _run_raw(c, d)
+        if c["kind"] == "long":
+            return _run_long(c, d)
+        if c["kind"] == "lachist":
+            return _run_lachist(c, d)
         return _run_npy(c, d)
     finally:
         shutil.rmtree(d, ignore_errors=True)
@@ -419,7 +486,27 @@ def _ceil(n, s):
     return -(-n // s)
 
 
+def _oracle_extra(c, r):
+    out = []
+    if c["kind"] == "long":
+        if "err" in r:
+            return [("long-row", "save/load of a long row raised %s" % r)]
+        if not r["roundtrip"]:
+            out.append(("roundtrip", "rows %s: save/load does not return the data" % c["lens"]))
+        if not r["stride_eq_slice"]:
+            out.append(("stride-subset", "rows %s stride %d: load(stride) differs from slicing the full load" % (c["lens"], c["stride"])))
+    else:
+        for tag in ("first", "second"):
+            x = r.get(tag, {})
+            if "err" in x or not x.get("lengths_ok") or not x.get("data_ok"):
+                out.append(("lac-history" if tag == "second" else "lac-concat",
+                            "%s load of files with lengths %s: %s" % (tag, c["lens"] if tag == "first" else c["lens2"], x)))
+    return out
+
+
 def oracle(c, r):
+    if c["kind"] in ("long", "lachist"):
+        return _oracle_extra(c, r)
     out = []
     if "err" in r and str(r["err"]).startswith("Unexpected"):
         return [("harness", str(r))]
@@ -561,6 +648,8 @@ def _lac_term(c, r):
 
 
 def coq_show(c):
+    if c["kind"] in ("long", "lachist"):
+        return "tt"
     if c["kind"] == "ra":
         return "(save_load_rows %s %s %s %s, save_striped %s %s %s)" % (
             _cstr(c["tag"]), _carr(c), copt(c["idxs"], _cnl, "(list nat)"), cz(c["stride"]),
@@ -575,6 +664,8 @@ def coq_show(c):
 
 
 def coq_check(c, r):
+    if c["kind"] in ("long", "lachist"):
+        return None        # oracle-only cases (sizes / file histories outside the Coq model's evaluation)
     if "err" in r and str(r["err"]).startswith("Unexpected"):
         return None
     if c["kind"] == "ra":
@@ -603,6 +694,8 @@ def coq_check(c, r):
 
 # ----------------------------------------------------------------------------- evidence
 def nontrivial(c, r):
+    if c["kind"] in ("long", "lachist"):
+        return True
     if c["kind"] == "ra":
         rows = c["rows"]
         return (len({len(x) for x in rows}) >= 2 or c["stride"] > 1 or
